@@ -17,6 +17,21 @@
 (* Deps (which parameter groups the loss depends on differentiably).          *)
 (*                                                                            *)
 (* kinds: dqn nature ddqn per | ddpg td3 lap sac td7 mrq | sale enc           *)
+(*                                                                            *)
+(* Update routines (the USE of a loss by the routine that differentiates it,  *)
+(* applies the gradient with the caller's optimiser and returns the loss):    *)
+(*   encupd   update_model_based_encoder: scan over target_delay mini-batches *)
+(*            of batch_size rows, per mini-batch the documented weighted sum  *)
+(*            dw*L_dyn + rw*L_reward + tw*L_done is differentiated and        *)
+(*            applied, the routine returns the mean over the mini-batches of  *)
+(*            (total, dynamics, reward, done, reward mse)                     *)
+(*   saleupd  update_sale: one step on state_action_embedding_loss            *)
+(*   mrqupd   update_critic_and_policy: one step of the critic on mrq_loss    *)
+(*            (gamma, reward_scale, target_reward_scale passed positionally)  *)
+(* (td7_update_critic is itself such a routine: kind td7.)  Operators         *)
+(* MiniBatch (the scan's schedule), InnerPar (the hyper-parameters as the     *)
+(* inner call receives them), SgdStep (old - new parameter for plain SGD),    *)
+(* EncGrads / EncUpdate / SaleUpdate / CriticUpdate.                          *)
 EXTENDS Exact, FiniteSets, TLC, Json
 
 CONSTANTS EMIT,    \* TRUE: print one EMIT record per finished vector
@@ -25,7 +40,7 @@ CONSTANTS EMIT,    \* TRUE: print one EMIT record per finished vector
           NA,      \* number of discrete actions (dqn family)
           H,       \* horizon (mrq n-step, enc unroll)
           LAT,     \* "full" | "small": value lattice
-          DEV      \* "" or the name of a deviation (canaries): "noterm" "broadcast" "nosg" "encbroadcast"
+          DEV      \* "" or the name of a deviation (canaries): "noterm" "broadcast" "nosg" "encbroadcast" "updswap"
 
 VARIABLES stage,   \* "kind" | "par" | "rows" | "done"
           kind, n, par,
@@ -38,6 +53,8 @@ Disc  == {"dqn", "nature", "ddqn", "per"}
 Cont  == {"ddpg", "td3", "lap", "sac", "td7"}
 Two   == {"td3", "lap", "sac", "td7", "mrq"}      \* two online critics
 Hub   == {"lap", "td7", "mrq"}                    \* Huber regression
+Upd   == {"encupd", "saleupd", "mrqupd"}          \* update routines around a loss
+Base(k) == CASE k = "encupd" -> "enc" [] k = "saleupd" -> "sale" [] k = "mrqupd" -> "mrq" [] OTHER -> k
 
 ----------------------------------------------------------------------------
 (* value lattices (dyadic) *)
@@ -54,16 +71,32 @@ ClipV == IF Full THEN {<<I(-1), I(2)>>, <<Zero, Half>>, <<I(-4), I(4)>>} ELSE {<
 SV   == IF Full THEN {Half, One, I(2)} ELSE {Half, I(2)}              \* reward scales (powers of two)
 TSeqs == [1..H -> {0, 1}]                                             \* termination patterns over the horizon
 (* latent vectors (dimension 2); ZRaw: un-normalised embeddings whose mean |.| is a power of two *)
-ZV   == IF Full \/ kind = "sale" THEN {<<Zero, Zero>>, <<One, I(-1)>>, <<Half, I(2)>>} ELSE {<<Zero, Zero>>, <<One, I(-1)>>}
-ZT   == IF Full \/ kind = "sale" THEN {<<Zero, Zero>>, <<One, One>>, <<I(-2), Half>>} ELSE {<<One, One>>}
+ZV   == IF Full \/ Base(kind) = "sale" THEN {<<Zero, Zero>>, <<One, I(-1)>>, <<Half, I(2)>>} ELSE {<<Zero, Zero>>, <<One, I(-1)>>}
+ZT   == IF Full \/ Base(kind) = "sale" THEN {<<Zero, Zero>>, <<One, One>>, <<I(-2), Half>>} ELSE {<<One, One>>}
 ZRaw == {<<One, One>>, <<I(2), Zero>>, <<I(3), I(-1)>>, <<Half, Q(-3, 2)>>, <<Q(-1, 2), Half>>}
 PDV  == IF Full THEN {Zero, Half, I(2)} ELSE {Zero, Half}             \* predicted done flag
 WgtV == IF Full THEN {Zero, One, I(2)} ELSE {One, I(2)}               \* loss weights
-RBar == One                                                           \* decoded reward of uniform logits (mean of the bins)
+BinsQ == <<I(-2), I(0), I(2), I(4)>>                                  \* two-hot bin edges used by the binding
+RBar == QMean(BinsQ)                                                  \* decoded reward of uniform logits (mean of the bins) = 1
+LrV  == {Half, One}                                                   \* SGD learning rates of the update routines
 
 DefPar == [gamma |-> One, delta |-> One, alpha |-> Zero, lo |-> I(-4), hi |-> I(4), rs |-> One, trs |-> One,
-           dw |-> One, rw |-> Zero, tw |-> One, envterm |-> TRUE, normtgt |-> TRUE]
+           dw |-> One, rw |-> Zero, tw |-> One, envterm |-> TRUE, normtgt |-> TRUE,
+           lr |-> One, td |-> 1]      \* update routines only: SGD learning rate, target_delay (number of mini-batches of the scan)
 
+(* update routines: curated hyper-parameters, PAIRWISE DISTINCT and non-default wherever two scalars are neighbours in a      *)
+(* positional call (each set is a separate jit specialisation of the routine, so the sets are few)                            *)
+EncW(d, r, t, e, m, l, c) == [DefPar EXCEPT !.dw = d, !.rw = r, !.tw = t, !.envterm = e, !.normtgt = m, !.lr = l, !.td = c]
+UpdEncSmall == {EncW(I(2), One,  Half, TRUE,  TRUE,  Half, 2),     \* all three weights distinct, two mini-batches
+                EncW(Half, I(2), One,  TRUE,  FALSE, One,  1),     \* one mini-batch (unrolled chain intact), raw targets
+                EncW(One,  Zero, I(2), TRUE,  TRUE,  One,  2),     \* no reward term: the total is an exact rational
+                EncW(I(2), Half, One,  FALSE, TRUE,  Half, 1)}     \* environment never terminates: done term dropped
+UpdEncMore  == {EncW(One,  One,  One,  TRUE,  TRUE,  Half, 2),     \* equal weights (the defaults' class)
+                EncW(One,  Half, I(2), TRUE,  FALSE, Half, 2),
+                EncW(Half, One,  I(2), FALSE, FALSE, One,  2),
+                EncW(I(2), One,  Zero, TRUE,  TRUE,  One,  1)}
+UpdMrqSmall == {[DefPar EXCEPT !.gamma = Half, !.rs = I(2), !.trs = One,  !.lr = Half],
+                [DefPar EXCEPT !.gamma = One,  !.rs = Half, !.trs = I(2), !.lr = One]}
 ParSetFull(k) ==
   CASE k \in Disc \cup {"ddpg", "td3"} -> {[DefPar EXCEPT !.gamma = g] : g \in GV}
     [] k = "lap"  -> {[DefPar EXCEPT !.gamma = g, !.delta = d] : g \in GV, d \in DV}
@@ -73,10 +106,15 @@ ParSetFull(k) ==
     [] k = "sale" -> {DefPar}
     [] k = "enc"  -> {[DefPar EXCEPT !.dw = d, !.rw = r, !.tw = t, !.envterm = e, !.normtgt = m] :
                         d \in WgtV, r \in {Zero, One}, t \in WgtV, e \in BOOLEAN, m \in BOOLEAN}
+    [] k = "encupd"  -> UpdEncSmall \cup UpdEncMore
+    [] k = "saleupd" -> {[DefPar EXCEPT !.lr = l] : l \in LrV}
+    [] k = "mrqupd"  -> UpdMrqSmall \cup {[DefPar EXCEPT !.gamma = Half, !.rs = One, !.trs = I(2), !.lr = One],
+                                          [DefPar EXCEPT !.gamma = One, !.rs = I(2), !.trs = Half, !.lr = Half]}
 (* small lattice: curated combinations instead of products *)
 ParSetSmall(k) ==
   CASE k = "td7"  -> {[DefPar EXCEPT !.gamma = Half, !.delta = Half, !.lo = I(-1), !.hi = Zero],
                       [DefPar EXCEPT !.gamma = One, !.delta = One],
+                      [DefPar EXCEPT !.gamma = One, !.delta = Half, !.lo = I(-1), !.hi = Zero],   \* gamma, min_priority, q_min, q_max pairwise distinct
                       [DefPar EXCEPT !.gamma = Half, !.delta = One, !.lo = I(-1), !.hi = Zero]}
     [] k = "mrq"  -> {[DefPar EXCEPT !.gamma = Half, !.rs = I(2), !.trs = Half],
                       [DefPar EXCEPT !.gamma = One, !.rs = Half, !.trs = I(2)]}
@@ -84,6 +122,8 @@ ParSetSmall(k) ==
                       [DefPar EXCEPT !.dw = I(2), !.rw = One, !.normtgt = FALSE],
                       [DefPar EXCEPT !.tw = I(2), !.envterm = FALSE],
                       [DefPar EXCEPT !.rw = One, !.tw = I(2)]}
+    [] k = "encupd"  -> UpdEncSmall
+    [] k = "mrqupd"  -> UpdMrqSmall
     [] OTHER      -> ParSetFull(k)
 ParSet(k) == IF Full THEN ParSetFull(k) ELSE ParSetSmall(k)
 
@@ -109,7 +149,7 @@ BootSetSmall(k) ==
     [] k \in {"ddqn", "per"} -> {[Qn |-> s[1], Qt |-> s[2]] : s \in SmallScen}
     [] k \in Cont \cup {"mrq"} -> {[Q1t |-> b, Q2t |-> Zero, logp |-> IF k # "sac" THEN Zero ELSE IF b = Half THEN I(2) ELSE I(-1)] : b \in BV}
     [] OTHER        -> BootSetFull(k)
-BootSet(k) == IF Full THEN BootSetFull(k) ELSE BootSetSmall(k)
+BootSet(k) == IF Full THEN BootSetFull(Base(k)) ELSE BootSetSmall(Base(k))
 
 RestSetFull(k) ==
   CASE k \in Disc \ {"per"} -> [a : 1..NA, r : RV, term : {0, 1}, q : QV, w : {One}]
@@ -128,7 +168,7 @@ RestSetSmall(k) ==
     [] k = "enc"    -> {[pz |-> z, pd |-> [t \in 1..H |-> IF z[t] = <<Zero, Zero>> THEN Half ELSE Zero],
                          r |-> [t \in 1..H |-> I(-1)], ts |-> s] : z \in [1..H -> ZV], s \in TSeqs}
     [] OTHER        -> RestSetFull(k)
-RestSet(k) == IF Full THEN RestSetFull(k) ELSE RestSetSmall(k)
+RestSet(k) == IF Full THEN RestSetFull(Base(k)) ELSE RestSetSmall(Base(k))
 
 ----------------------------------------------------------------------------
 (* the documented target *)
@@ -266,10 +306,79 @@ EncEval(p, rws) ==
       gz |-> [i \in Idx(rws) |-> [d \in VIdx |->
                 QDiv(QMul(QMul(p.dw, I(Mask(rws[i].x.ts, H))), QSub(rws[i].x.pz[H][d], rws[i].b.tz[H][d])), I(N))]]]
 
+----------------------------------------------------------------------------
+(* Update routines.  The routine receives hyper-parameters p; InnerPar is what its inner (positional) call of the loss    *)
+(* passes on - documented: the same values in the same roles.  Deviation "updswap": two neighbouring scalars exchanged.   *)
+InnerPar(p) == IF DEV = "updswap" THEN [p EXCEPT !.rw = p.tw, !.tw = p.rw, !.rs = p.trs, !.trs = p.rs] ELSE p
+(* plain SGD: old - new parameter = learning rate * gradient *)
+SgdStep(lr, g) == QMul(lr, g)
+(* the scan's schedule: the batch of td * nn rows is reshaped to (td, nn, ...), mini-batch m = rows (m-1)*nn+1 .. m*nn *)
+MiniBatch(rws, nn, m) == SubSeq(rws, (m - 1) * nn + 1, m * nn)
+
+(* two-hot encoding of a reward on BinsQ and the gradient of the encoder loss w.r.t. every prediction of a row-step when   *)
+(* predictions do not feed forward (table-lookup model head): done flag, latent state (every step), reward logits          *)
+(* (uniform logits: softmax = 1/#bins)                                                                                      *)
+NB == Len(BinsQ)
+TwoHot(r) == [k \in 1..NB |->
+                IF k < NB /\ QLe(BinsQ[k], r) /\ QLt(r, BinsQ[k + 1]) THEN QDiv(QSub(BinsQ[k + 1], r), QSub(BinsQ[k + 1], BinsQ[k]))
+                ELSE IF k > 1 /\ QLt(BinsQ[k - 1], r) /\ QLe(r, BinsQ[k]) THEN QDiv(QSub(r, BinsQ[k - 1]), QSub(BinsQ[k], BinsQ[k - 1]))
+                ELSE IF k = 1 /\ QLe(r, BinsQ[1]) THEN One ELSE IF k = NB /\ QLe(BinsQ[NB], r) THEN One ELSE Zero]
+EncGrads(p, rws) ==
+  LET N == Len(rws)
+      mk(i, t) == I(Mask(rws[i].x.ts, t))
+  IN [gd |-> [i \in Idx(rws) |-> [t \in 1..H |->
+                IF ~p.envterm THEN Zero
+                ELSE QDiv(QMul(QMul(p.tw, QMul(I(2), mk(i, t))), QSub(rws[i].x.pd[t], I(rws[i].x.ts[t]))), I(N))]],
+      gz |-> [i \in Idx(rws) |-> [t \in 1..H |-> [d \in VIdx |->
+                QDiv(QMul(QMul(p.dw, mk(i, t)), QSub(rws[i].x.pz[t][d], rws[i].b.tz[t][d])), I(N))]]],
+      gr |-> [i \in Idx(rws) |-> [t \in 1..H |-> LET th == TwoHot(rws[i].x.r[t]) IN [k \in 1..NB |->
+                QDiv(QMul(QMul(p.rw, mk(i, t)), QSub(Q(1, NB), th[k])), I(N))]]]]
+
+(* update_model_based_encoder: mini-batches on disjoint table rows do not interact; the routine differentiates and applies *)
+(* the weighted sum per mini-batch and returns the mean over the mini-batches of the total and of its components          *)
+EncUpdate(p, rws) ==
+  LET nn == Len(rws) \div p.td
+      q  == InnerPar(p)
+      mb(m) == MiniBatch(rws, nn, m)
+      ev == Force([m \in 1..p.td |-> EncEval(q, mb(m))], p.td)
+      gr == Force([m \in 1..p.td |-> EncGrads(q, mb(m))], p.td)
+      mean(f(_)) == QMean([m \in 1..p.td |-> f(m)])
+      mOf(i) == ((i - 1) \div nn) + 1
+      lOf(i) == ((i - 1) % nn) + 1
+      exact(m) == ev[m].exact     dyn(m) == ev[m].dyn     done(m) == ev[m].done     rmse(m) == ev[m].rmse    cr(m) == ev[m].cr
+      wcr(m) == QMul(q.rw, ev[m].cr)
+      ebc(m) == ev[m].exact_bc    dbc(m) == ev[m].done_bc    rbc(m) == ev[m].rmse_bc
+  IN [exact |-> mean(exact), dyn |-> mean(dyn), done |-> mean(done), rmse |-> mean(rmse),
+      cr  |-> mean(cr),            \* returned reward loss = cr * ln(#bins)
+      wcr |-> mean(wcr),           \* returned total = exact + wcr * ln(#bins)
+      exact_bc |-> mean(ebc), done_bc |-> mean(dbc), rmse_bc |-> mean(rbc),
+      bins |-> BinsQ,
+      \* per row of the whole batch (first-order quantities of the row's own mini-batch): gradients and SGD steps
+      gd |-> [i \in Idx(rws) |-> ev[mOf(i)].gd[lOf(i)]],
+      gd_bc |-> [i \in Idx(rws) |-> ev[mOf(i)].gd_bc[lOf(i)]],
+      gz |-> [i \in Idx(rws) |-> ev[mOf(i)].gz[lOf(i)]],
+      sd |-> [i \in Idx(rws) |-> [t \in 1..H |-> SgdStep(p.lr, gr[mOf(i)].gd[lOf(i)][t])]],
+      sz |-> [i \in Idx(rws) |-> [t \in 1..H |-> [d \in VIdx |-> SgdStep(p.lr, gr[mOf(i)].gz[lOf(i)][t][d])]]],
+      sr |-> [i \in Idx(rws) |-> [t \in 1..H |-> [k \in 1..NB |-> SgdStep(p.lr, gr[mOf(i)].gr[lOf(i)][t][k])]]]]
+
+(* update_sale: returns the embedding loss, moves the embedding by one optimiser step along its gradient *)
+SaleUpdate(p, rws) ==
+  LET e == SaleEval(rws)
+  IN [loss |-> e.loss, tgt |-> e.tgt, g |-> e.g,
+      s |-> [i \in Idx(rws) |-> [d \in VIdx |-> SgdStep(p.lr, e.g[i][d])]]]
+
+(* update_critic_and_policy (MR.Q): returns mrq_loss and its auxiliaries, moves the critic by one step along its gradient *)
+CriticUpdate(p, e) ==
+  [loss |-> e.loss, qmean |-> e.qmean, mtd |-> e.mtd, ptd |-> e.ptd, y |-> e.y, g1 |-> e.g1, g2 |-> e.g2,
+   s1 |-> [i \in DOMAIN e.g1 |-> SgdStep(p.lr, e.g1[i])], s2 |-> [i \in DOMAIN e.g2 |-> SgdStep(p.lr, e.g2[i])]]
+
 (* set of admissible complete results *)
 Alts(k, p, rws) ==
   CASE k = "sale" -> {SaleEval(rws)}
     [] k = "enc"  -> {EncEval(p, rws)}
+    [] k = "encupd"  -> {EncUpdate(p, rws)}
+    [] k = "saleupd" -> {SaleUpdate(p, rws)}
+    [] k = "mrqupd"  -> {CriticUpdate(p, Eval("mrq", InnerPar(p), rws, ch)) : ch \in ChoiceSeqs("mrq", p, rws, Len(rws))}
     [] OTHER      -> {Eval(k, p, rws, ch) : ch \in ChoiceSeqs(k, p, rws, Len(rws))}
 
 ----------------------------------------------------------------------------
@@ -300,17 +409,17 @@ Trainable(k) ==
 ZeroGroups(k) == (TargetDeps(k) \cup (IF k = "td7" THEN {"fixed_embedding"} ELSE IF k = "mrq" THEN {"encoder"} ELSE {})) \ Deps(k)
 
 ----------------------------------------------------------------------------
-Terminated(k, rw) == IF k = "mrq" THEN \E t \in 1..H : rw.x.ts[t] = 1 ELSE rw.x.term = 1
+Terminated(k, rw) == IF Base(k) = "mrq" THEN \E t \in 1..H : rw.x.ts[t] = 1 ELSE rw.x.term = 1
 (* irrelevant cells of a vector: rows whose whole bootstrap part must not matter (TerminatedNoBootstrap); *)
 (* for the encoder loss the (row, step) pairs after the first termination (AfterTermIgnored)             *)
 Irrelevant(k, rws) ==
-  CASE k = "enc"  -> {c \in Idx(rws) \X (1..H) : Mask(rws[c[1]].x.ts, c[2]) = 0}
-    [] k = "sale" -> {}
+  CASE Base(k) = "enc"  -> {c \in Idx(rws) \X (1..H) : Mask(rws[c[1]].x.ts, c[2]) = 0}
+    [] Base(k) = "sale" -> {}
     [] OTHER      -> {i \in Idx(rws) : Terminated(k, rws[i])}
 
 Emit(alts) ==
   EMIT => PrintT(<<"EMIT", ToJson([kind |-> kind, n |-> n, par |-> par, rows |-> rows, alts |-> alts,
-                                    zero |-> ZeroGroups(kind), support |-> Deps(kind), irr |-> Irrelevant(kind, rows)])>>)
+                                    zero |-> ZeroGroups(Base(kind)), support |-> Deps(Base(kind)), irr |-> Irrelevant(kind, rows)])>>)
 
 Init == stage = "kind" /\ kind = "" /\ n = 0 /\ par = <<>> /\ pend = <<>> /\ rows = <<>>
 
@@ -320,20 +429,21 @@ ChooseKind(k, nn) == /\ stage = "kind"
 ChooseParams(p) == /\ stage = "par"
                    /\ par' = p /\ stage' = "rows"
                    /\ UNCHANGED <<kind, n, pend, rows>>
-ChooseBoot(b) == /\ stage = "rows" /\ Len(rows) < n /\ pend = <<>>
+NRows == n * par.td      \* the update routine of the encoder receives target_delay * batch_size rows
+ChooseBoot(b) == /\ stage = "rows" /\ Len(rows) < NRows /\ pend = <<>>
                  /\ pend' = <<b>>
                  /\ UNCHANGED <<stage, kind, n, par, rows>>
 ChooseRest(x) == /\ stage = "rows" /\ pend # <<>>
                  /\ rows' = Append(rows, [b |-> pend[1], x |-> x]) /\ pend' = <<>>
                  /\ UNCHANGED <<stage, kind, n, par>>
-Finish == /\ stage = "rows" /\ Len(rows) = n /\ pend = <<>>
+Finish == /\ stage = "rows" /\ Len(rows) = NRows /\ pend = <<>>
           /\ stage' = "done"
           /\ UNCHANGED <<kind, n, par, pend, rows>>
           /\ Emit(Alts(kind, par, rows))
 
 Next == \/ \E k \in Kinds, nn \in NSet : ChooseKind(k, nn)
         \/ (stage = "par" /\ \E p \in ParSet(kind) : ChooseParams(p))
-        \/ (stage = "rows" /\ pend = <<>> /\ Len(rows) < n /\ \E b \in BootSet(kind) : ChooseBoot(b))
+        \/ (stage = "rows" /\ pend = <<>> /\ Len(rows) < NRows /\ \E b \in BootSet(kind) : ChooseBoot(b))
         \/ (stage = "rows" /\ pend # <<>> /\ \E x \in RestSet(kind) : ChooseRest(x))
         \/ Finish
 
@@ -375,7 +485,7 @@ UnRot(s) == [i \in Idx(s) |-> s[((i + Len(s) - 2) % Len(s)) + 1]]
 ProjC(r, un(_)) == <<r.loss, r.qmean, r.mtd, un(r.ptd), un(r.y), un(r.g1), un(r.g2)>>
 Id(s) == s
 PermutationInvariant ==
-  (Done /\ n >= 2) =>
+  (Done /\ n >= 2 /\ kind \notin Upd) =>
     CASE kind = "sale" ->
            LET o == SaleEval(rows)  a == SaleEval(Swap(rows))
            IN /\ a.loss = o.loss /\ UnSwap(a.g) = o.g
@@ -393,7 +503,7 @@ PermutationInvariant ==
 
 (* the loss is the mean of per-sample terms (no cross terms between rows) *)
 PerSample ==
-  Done =>
+  (Done /\ kind \notin Upd) =>
     CASE kind = "sale" ->
            SaleEval(rows).loss = QMean([i \in Idx(rows) |-> SaleEval(<<rows[i]>>).loss])
       [] kind = "enc" ->
@@ -413,9 +523,41 @@ PerSample ==
                                         /\ QMul(I(n), e.g1[i]) = s[i].g1[1] /\ QMul(I(n), e.g2[i]) = s[i].g2[1]
 
 (* gradients reach only the trainable online parameters *)
-GradSupport == stage = "kind" \/ Deps(kind) \subseteq Trainable(kind)
+GradSupport == stage = "kind" \/ Deps(Base(kind)) \subseteq Trainable(Base(kind))
+
+(* Update routines: every hyper-parameter acts in its documented role on what the routine returns and applies.             *)
+(* Encoder: raising one weight by 1 adds exactly that weight's own (returned) component to the returned total and moves     *)
+(* only that component's predictions further (done flag <- done weight, latent state <- dynamics weight, reward logits <-   *)
+(* reward weight); the returned components themselves do not depend on the weights; equally sized mini-batches on disjoint  *)
+(* rows return the means over the whole batch.                                                                              *)
+Bump(p, f) == [p EXCEPT ![f] = QAdd(@, One)]
+UpdEachWeightItsOwnTerm ==
+  (Done /\ kind = "encupd") =>
+    LET u == EncUpdate(par, rows)
+        comp(v) == <<v.dyn, v.cr, v.done, v.rmse>>
+        ud == EncUpdate(Bump(par, "dw"), rows)   ur == EncUpdate(Bump(par, "rw"), rows)   ut == EncUpdate(Bump(par, "tw"), rows)
+        whole == EncEval(par, rows)
+    IN /\ comp(ud) = comp(u) /\ comp(ur) = comp(u) /\ comp(ut) = comp(u)
+       /\ QSub(ud.exact, u.exact) = u.dyn /\ ud.wcr = u.wcr /\ ud.sd = u.sd /\ ud.sr = u.sr
+       /\ QSub(ur.wcr, u.wcr) = u.cr /\ ur.exact = u.exact /\ ur.sd = u.sd /\ ur.sz = u.sz
+       /\ QSub(ut.exact, u.exact) = u.done /\ ut.wcr = u.wcr /\ ut.sz = u.sz /\ ut.sr = u.sr
+       /\ <<u.dyn, u.cr, u.done, u.rmse>> = <<whole.dyn, whole.cr, whole.done, whole.rmse>>
+       /\ u.exact = QAdd(QMul(par.dw, u.dyn), QMul(par.tw, u.done)) /\ u.wcr = QMul(par.rw, u.cr)
+(* MR.Q critic: reward_scale divides the whole target, target_reward_scale multiplies the bootstrap only - the target of a  *)
+(* terminated row does not depend on it; the step is the learning rate times the gradient of the returned loss              *)
+UpdScalesInRole ==
+  (Done /\ kind = "mrqupd") =>
+    LET alts(p) == Alts(kind, p, rows)
+        ys(p)   == {a.y : a \in alts(p)}
+        p2      == [par EXCEPT !.trs = QMul(@, I(2))]
+        p3      == [par EXCEPT !.rs = QMul(@, I(2))]
+    IN /\ \A a \in alts(par) : \A b \in alts(p2) : \A i \in Irrelevant(kind, rows) : a.y[i] = b.y[i]
+       /\ ys(p3) = {[i \in Idx(rows) |-> QMul(Half, y[i])] : y \in ys(par)}
+       /\ \A a \in alts(par) : \A i \in Idx(rows) : a.s1[i] = QMul(par.lr, a.g1[i]) /\ a.s2[i] = QMul(par.lr, a.g2[i])
+
 
 (* sanity of the lattice: the Huber kink, clipping and ties are actually exercised (checked by the driver from the emitted data) *)
 TypeOK == /\ stage \in {"kind", "par", "rows", "done"}
-          /\ Len(rows) <= n
+          /\ (stage \in {"kind", "par"} => rows = <<>>)
+          /\ (stage \in {"rows", "done"} => Len(rows) <= NRows)
 =============================================================================
